@@ -63,6 +63,7 @@ type Obligation struct {
 // VC is one verification unit (a function under contract, or a lemma).
 type VC struct {
 	eng          *Engine
+	lockTypes    map[string]string // lock id (access path) -> "pkgpath.Type.field" of the mutex, for lockorder checks
 	sc           *Script
 	obls         []*Obligation
 	root         string
